@@ -113,6 +113,40 @@ func Cause(ctx context.Context) error {
 	return nil
 }
 
+// CtxAfterFunc is context.AfterFunc: f runs in a thread of its own once ctx is done, unless stop is called first.
+// (As with the real one, nothing is left behind when ctx is never done: the waiting thread is a daemon.)
+func CtxAfterFunc(ctx context.Context, f func()) (stop func() bool) {
+	c, ok := ctx.Value(ctxKey{}).(*Ctx)
+	if !ok {
+		if ctx.Done() != nil {
+			Fatalf("context.AfterFunc on a cancellable context not created through the mc shims (at %s)", callerSite())
+		}
+		return func() bool { return true } // never done: f never runs
+	}
+	st := &struct {
+		o                Obj
+		stopped, started bool
+	}{}
+	spawn("afterfunc(ctx)", false, func() {
+		simple("ctx.afterfunc", func() bool { return c.err != nil || st.stopped })
+		EvRead(&c.o, "ctx.afterfunc", b2u(c.err != nil))
+		EvWrite(&st.o, "afterfunc.start", 0)
+		if st.stopped {
+			return
+		}
+		st.started = true
+		f()
+	})
+	S.threads[len(S.threads)-1].daemon = true
+	return func() bool {
+		simple("afterfunc.stop", nil)
+		EvWrite(&st.o, "afterfunc.stop", 0)
+		r := !st.stopped && !st.started
+		st.stopped = true
+		return r
+	}
+}
+
 // ---------- timers ----------
 
 type Timer struct {
